@@ -10,12 +10,18 @@ let run inp obs : string option * string option =
    (EventsSpec.accepts: tag, in-header, begin, payloads, ..., exactly one end), or there are none *)
 let run_z inp obs : string option * string option =
   match inp, obs with
-  | "C18Z" :: _, ["-"] -> (None, None)
-  | "C18Z" :: v :: _, [evs] ->
+  | "C18Z" :: _, ["-"; _] -> (None, None)
+  | "C18Z" :: v :: _, [evs; status] ->
     (try
        let l = Stdlib.List.map C18.parse_ev (Stdlib.String.split_on_char ',' evs) in
-       if EventsSpec.accepts l then (None, None)
-       else (Some (Printf.sprintf "HTTP call with Content-Encoding (%s): the stats handler saw %s, which is not one complete event sequence (tag, in-header, begin, ..., exactly one end)" v evs), None)
+       let what = Printf.sprintf "HTTP call (%s), answered %s: the stats handler saw %s" v status evs in
+       if not (EventsSpec.accepts l) then (Some (what ^ ", which is not one complete event sequence (tag, in-header, begin, ..., exactly one end)"), None)
+       else
+         (* the end event carries the error the client was told about *)
+         let codes = Stdlib.List.map Util.int_of_nat (EventsSpec.end_codes l) in
+         match codes with
+         | [c] when (status = "200") = (c = 0) -> (None, None)
+         | _ -> (Some (what ^ ": the End event does not say what the client was told (an error iff the status is not 200)"), None)
      with Failure e -> (Some ("HTTP call with Content-Encoding: " ^ e), None))
   | _ -> (Some "unparsable C18Z case", None)
 let () = Evalreg.register "C18T" run; Evalreg.register "C18Z" run_z
